@@ -1,7 +1,7 @@
 (* C06 — the router dispatches to the route the documented priority selects. *)
 From Coq Require Import String.
 From Coq Require Import List Strings.Byte NArith Bool Arith Permutation.
-Require Import Bytes Show Router RouterProofs Radix RadixProofs.
+Require Import Bytes Show Router RouterProofs Radix RadixProofs RadixInsert.
 Import ListNotations.
 
 (* `find` is router.find's search (static, then parameter, then catch-all, backtracking) over the
@@ -60,6 +60,31 @@ Theorem C06_radix_lookup_is_the_search : forall (n : node) (s : bs) (f : nat),
   ft n s = option_map fst (find (S f) (paths n) s).
 Proof. exact radix_lookup_is_the_search. Qed.
 Print Assumptions C06_radix_lookup_is_the_search.
+
+(* EVERY tree that addRoute builds - any list of route texts that begin with '/', registered in any order, with
+   any parameter and catch-all names - is well formed with a static root (or still the empty root): so the
+   theorem above applies to every tree the router can hold, not only to those a run has checked with `wfb`.
+   The proof (Proofs/RadixInsert.v) shows that every call of insert made by add_route is `safe` - the static
+   text in front of a wildcard is inserted first, which puts a node boundary there - and that a safe insert
+   keeps the tree `good` (well formed, wildcard nodes carry exactly ':' / '*', static edges contain neither). *)
+Theorem C06_every_built_tree_is_well_formed : forall (pats : list bs) (order : list nat),
+  (forall i, In i order -> exists r, nth i pats [] = sl :: r) ->
+  let t := build_from empty_root pats order in t = empty_root \/ (wf t /\ nkind t = Sk).
+Proof. exact built_tree_wf. Qed.
+Print Assumptions C06_every_built_tree_is_well_formed.
+
+Theorem C06_lookup_in_every_built_tree : forall (pats : list bs) (order : list nat) (s : bs) (f : nat),
+  (forall i, In i order -> exists r, nth i pats [] = sl :: r) -> order <> [] ->
+  let t := build_from empty_root pats order in
+  short (S f) (paths t) -> ft t s = option_map fst (find (S f) (paths t) s).
+Proof.
+  intros pats order s f V Ne t Sh.
+  destruct order as [|i order]; [congruence|]. cbn [build_from] in t.
+  pose proof (register_ok empty_root (nth i pats []) i (or_introl eq_refl) (V i (or_introl eq_refl))) as St.
+  pose proof (build_strong order pats _ St (fun j Hj => V j (or_intror Hj))) as (G & K & _).
+  fold t in G, K. apply radix_lookup_is_the_search; [apply good_wf; exact G|exact K|exact Sh].
+Qed.
+Print Assumptions C06_lookup_in_every_built_tree.
 
 Theorem C06_wf_check_is_sound : forall n, wfb n = true -> wf n.
 Proof. exact wfb_sound. Qed.
